@@ -233,6 +233,94 @@ where
     }
 }
 
+
+/// Interleaved use of BOTH ciphersuites and BOTH interfaces with the SAME key material, message
+/// count and header on one thread: what any cache or memo keyed too coarsely gets wrong.
+pub fn interleave<A: BbsCiphersuite, B: BbsCiphersuite>(h: &mut H, prop: &str)
+where
+    A::Expander: for<'a> ExpandMsg<'a>,
+    B::Expander: for<'a> ExpandMsg<'a>,
+{
+    use zkryptium::bbsplus::keys::BBSplusSecretKey;
+    let mut skb = h.rng.bytes(32);
+    skb[0] %= 0x73;
+    let sk = BBSplusSecretKey::from_bytes(&skb).unwrap();
+    let pk = sk.public_key();
+    let a_name = h.suite;
+    let b_name = if a_name == "sha" { "shake" } else { "sha" };
+    for (l, hc) in [(0usize, 0usize), (1, 3), (2, 0), (3, 1), (2, 3)] {
+        let msgs = distinct_msgs(h, l);
+        let hdr = header_of_class(h, hc);
+        let hd = hdr.as_deref();
+        h.stat(&format!("{}.interleave.L={}", prop, l));
+        let sa = sign::<A>(h, &sk, &pk, hd, Some(&msgs)).ok();
+        let va = sa.as_ref().map(|s| verify::<A>(h, &pk, s.bbsPlusSignature(), hd, Some(&msgs)));
+        h.expect(va.map(|v| v.is_ok()).unwrap_or(false), &format!("{}.interleave_a", prop), "valid signature rejected (suite A)", &[h.last()]);
+        h.suite = b_name;
+        let sb = sign::<B>(h, &sk, &pk, hd, Some(&msgs)).ok();
+        let vb = sb.as_ref().map(|s| verify::<B>(h, &pk, s.bbsPlusSignature(), hd, Some(&msgs)));
+        h.expect(vb.map(|v| v.is_ok()).unwrap_or(false), &format!("{}.interleave_b", prop), "valid signature rejected under the other suite after the first suite used the same key, count and header", &[h.last()]);
+        if let Some(sa) = &sa {
+            let x = verify::<B>(h, &pk, sa.bbsPlusSignature(), hd, Some(&msgs));
+            h.expect(!x.is_ok(), &format!("{}.interleave_cross", prop), "signature of suite A accepted by suite B (same key, count, header)", &[h.last()]);
+        }
+        h.suite = a_name;
+        if let Some(sb) = &sb {
+            let x = verify::<A>(h, &pk, sb.bbsPlusSignature(), hd, Some(&msgs));
+            h.expect(!x.is_ok(), &format!("{}.interleave_cross", prop), "signature of suite B accepted by suite A (same key, count, header)", &[h.last()]);
+        }
+        if let Some(sa) = &sa {
+            let x = verify::<A>(h, &pk, sa.bbsPlusSignature(), hd, Some(&msgs));
+            h.expect(x.is_ok(), &format!("{}.interleave_a2", prop), "valid signature rejected on re-verification after the other suite ran", &[h.last()]);
+            // proofs under both suites for the same statement
+            let d: Vec<usize> = (0..l).step_by(2).collect();
+            let dm = pick_msgs(&msgs, &d);
+            let (pa, _) = proofgen::<A>(h, &pk, &sa.to_bytes(), hd, None, Some(&msgs), Some(&d), vec![]);
+            if let Some(pa) = pa.ok() {
+                let v = proofverify::<A>(h, &pk, &pa, hd, None, Some(&dm), Some(&d));
+                h.expect(v.is_ok(), &format!("{}.interleave_proof_a", prop), "valid proof rejected (suite A)", &[h.last()]);
+                h.suite = b_name;
+                if let Ok(pab) = Pok::<B>::from_bytes(&pa.to_bytes()) {
+                    let v = proofverify::<B>(h, &pk, &pab, hd, None, Some(&dm), Some(&d));
+                    h.expect(!v.is_ok(), &format!("{}.interleave_proof_cross", prop), "proof of suite A accepted by suite B", &[h.last()]);
+                }
+                if let Some(sb) = &sb {
+                    let (pb, _) = proofgen::<B>(h, &pk, &sb.to_bytes(), hd, None, Some(&msgs), Some(&d), vec![]);
+                    if let Some(pb) = pb.ok() {
+                        let v = proofverify::<B>(h, &pk, &pb, hd, None, Some(&dm), Some(&d));
+                        h.expect(v.is_ok(), &format!("{}.interleave_proof_b", prop), "valid proof rejected under the other suite", &[h.last()]);
+                    }
+                }
+                h.suite = a_name;
+            }
+        }
+        // plain / blind with the same total generator count: L plain  ==  (L-1 signer) + blind slot
+        if l >= 1 {
+            let part = msgs[..l - 1].to_vec();
+            if let Some(bs) = blindsign::<A>(h, &sk, &pk, None, hd, Some(&part)).ok() {
+                let bsig = bs.bbsPlusBlindSignature().clone();
+                let v = verifyblind::<A>(h, &pk, &bsig, hd, Some(&part), None, None);
+                h.expect(v.is_ok(), &format!("{}.interleave_blind", prop), "valid blind signature rejected right after a plain verification with the same key, generator count and header", &[h.last()]);
+                if let Some(sa) = &sa {
+                    let v = verify::<A>(h, &pk, sa.bbsPlusSignature(), hd, Some(&msgs));
+                    h.expect(v.is_ok(), &format!("{}.interleave_plain_after_blind", prop), "valid plain signature rejected right after a blind verification", &[h.last()]);
+                }
+                let v = verify::<A>(h, &pk, &bsig, hd, Some(&msgs));
+                h.expect(!v.is_ok(), &format!("{}.interleave_blind_as_plain", prop), "blind signature accepted by the plain verifier", &[h.last()]);
+            }
+        }
+    }
+}
+
+pub fn interleave_dispatch(h: &mut H, prop: &str) {
+    use zkryptium::bbsplus::ciphersuites::{Bls12381Sha256, Bls12381Shake256};
+    if h.suite == "sha" {
+        interleave::<Bls12381Sha256, Bls12381Shake256>(h, prop)
+    } else {
+        interleave::<Bls12381Shake256, Bls12381Sha256>(h, prop)
+    }
+}
+
 pub fn c12<CS: BbsCiphersuite>(h: &mut H)
 where
     CS::Expander: for<'a> ExpandMsg<'a>,
